@@ -69,6 +69,13 @@ func buildScript(name string) (*origin.Site, string) {
 		site.Static[base+"index.m3u8"] = "#EXTM3U\n#EXT-X-VERSION:6\n#EXT-X-MEDIA:TYPE=AUDIO,GROUP-ID=\"a\",NAME=\"a\",DEFAULT=YES,URI=\"audio.m3u8\"\n" +
 			"#EXT-X-STREAM-INF:BANDWIDTH=1000,CODECS=\"avc1.42c028,mp4a.40.2\",AUDIO=\"a\"\nvideo.m3u8\n"
 		return site, base + "index.m3u8"
+	case "ts-multi":
+		// MPEG-TS variant plus an MPEG-TS audio rendition: two stream processors share one time base
+		mustRendition(rng, site, base+"video.m3u8", "ts", []*origin.Track{{Kind: media.H264, TimeScale: 90000, Params: testParamsH264, Base: 900000, SampleDur: 1800}}, 10, 5)
+		mustRendition(rng, site, base+"audio.m3u8", "ts", []*origin.Track{{Kind: media.AAC, TimeScale: 90000, AAC: aac, Base: 900000, SampleDur: 1920}}, 20, 5)
+		site.Static[base+"index.m3u8"] = "#EXTM3U\n#EXT-X-VERSION:6\n#EXT-X-MEDIA:TYPE=AUDIO,GROUP-ID=\"a\",NAME=\"a\",DEFAULT=YES,URI=\"audio.m3u8\"\n" +
+			"#EXT-X-STREAM-INF:BANDWIDTH=1000,CODECS=\"avc1.42c028,mp4a.40.2\",AUDIO=\"a\"\nvideo.m3u8\n"
+		return site, base + "index.m3u8"
 	case "ll":
 		plURL := base + "stream.m3u8"
 		tracks := []*origin.Track{{Kind: media.H264, TimeScale: 90000, Params: testParamsH264, Base: 900000, SampleDur: 1800}}
@@ -342,7 +349,7 @@ func enumerateC12(script string, baseRequests, baseUnits int, tier string) []c12
 
 func checkC12(tier string, seed int64) int {
 	rep := ev.NewReporter("C12")
-	scripts := []string{"ts", "fmp4", "fmp4-multi", "ll", "ts-long"}
+	scripts := []string{"ts", "fmp4", "fmp4-multi", "ll", "ts-long", "ts-multi"}
 	obs := map[string]int{}
 	sigs := map[string]bool{}
 	var samples []any
